@@ -16,6 +16,10 @@ CORPUS = [
     "(1,2) (?(3 ?lt) (1 add, 2 add))*", '(1,2) "%( (3,4) %)"', "(1,2) if (?(1 ?eq)) then ((3,4)) else (5)",
     "(1,2) [(3,4)]", "(1,2) ?((3,4))", "(1,2) ((3,4) == 3)", "(1,2,3) (|A| A (10, [5,1]))",
     '("a","b","c") [[]] "%( [4] %)b " (?(length), (2, ["a"], 0), 4)',
+    # a multi-valued splice with a long tail that holds another splice (the tail is shared by all its results)
+    '"%( 1,2 %) is smaller than %( 5 %)"', '(7,8) "%( 1,2,3 %) -- a tail of some length %( (5,6) %) and more text after it"',
+    # sequences are values: a copy appended to leaves the other copies alone
+    "(1,2) [] swap (|X| [X]) add", "let A := [0]; (1,2) (|X| A [X] add)", "[0] (|A| A [1] add, A)", "[0] (|A| (A [1] add, A [2] add, A))",
 ]
 
 # nesting templates: an ALT inside each kind of sub-expression context, fed several inputs
@@ -24,6 +28,9 @@ TEMPLATES = [
     "{S} if ({A}) then ({B}) else ({C})", "{S} [{A}]", "{S} ?({A})", "{S} !({A})", "{S} ({A}, {B})",
     "{S} ({A} {B}, {C})", "{S} ({A}) ({B})", "{S} (|X| X {A})", "{S} ({A} == {B})", "{S} ({A})? {B}",
     "{S} {{ {A} }} apply", "{S} let F := {{ {A} }}; F", "{S} (({A}, {B}), {C}) ({A}, {B})",
+    '{S} "%( {A} %){T}%( {B} %)"', '{S} "{T}%( {A} %){T}%( {B} %){T}"', '{S} "%( {A} %){T}"',
+    "let L := [{A}]; {S} (|X| L [X] add)", "{S} [] swap (|X| [X]) add", "[{A}] (|L| (L [{B}] add, L, L [{C}] add))",
+    "{S} [{A}] (|X L| (L [X] add, L))", "let L := [{A}]; {S} (L [{B}] add, L) length",
 ]
 
 
@@ -42,7 +49,8 @@ def templated(g, rng):
     t = rng.choice(TEMPLATES)
     step = rng.choice(["(1 add, 2 add)", "1 add (, 1 add)", "(1 add || 2 add)", "let Z := (1, 2); Z add", "[1 add] elem",
                        '"%( 1 add %)" length 1 add', "if (?(2 ?lt)) then ((1 add, 3 add)) else (1 add)"])
-    return t.format(S=alt() if rng.random() < 0.8 else alt() + " " + alt(), A=piece(), B=piece(), C=piece(), N=step)
+    tail = "".join(rng.choice(" abcxyz-:") for _ in range(rng.choice([0, 1, 5, 14, 15, 16, 17, 20, 24, 30, 31, 40])))
+    return t.format(T=tail, S=alt() if rng.random() < 0.8 else alt() + " " + alt(), A=piece(), B=piece(), C=piece(), N=step)
 
 
 def run(ctx):
